@@ -1,6 +1,7 @@
 package main
 
 import (
+	"regexp"
 	"fmt"
 	"go/token"
 	"go/types"
@@ -284,7 +285,7 @@ func (u *Unit) oblige(s *State, name string, props []string, kind, goal string, 
 	if goal == "true" {
 		return
 	}
-	o := &Oblig{Name: name, Props: props, Kind: kind, PC: append([]string{}, s.pc...), Goal: goal, Unit: u, PathDeps: append([]string{}, s.checked...)}
+	o := &Oblig{Name: name, Props: props, Kind: kind, PC: append([]string{}, s.pc...), Goal: goal, Unit: u, PathDeps: append([]string{}, s.checked...), Weak: s.weak}
 	if pos.IsValid() {
 		o.Pos = u.p.prog.Fset.Position(pos)
 	}
@@ -588,6 +589,61 @@ func (u *Unit) assumeInvariants(s *State, fn *ssa.Function, l *Loop) {
 }
 
 func (u *Unit) havocLoop(s *State, fn *ssa.Function, l *Loop) {
+	if fn != u.fn && u.p.contractFor(fn) == nil {
+		// a loop of an inlined function: nobody can give it an invariant, so everything the loop writes is simply
+		// forgotten. A counterexample found after this point may be an artefact of that (see Oblig.Weak).
+		s.weak = u.fnShort(fn)
+	} else if s.weak == "" {
+		// a variable that lives across iterations (declared outside the loop, written inside) and that no invariant
+		// of the loop mentions is forgotten in the same way: typical after a refactoring that introduces a cached
+		// value next to an existing loop variable
+		var text string
+		for _, c := range u.loopClauses(fn, l, "invariant") {
+			text += " " + c.Expr
+		}
+		var loose []string
+		for _, c := range l.cells {
+			al, ok := c.(*ssa.Alloc)
+			if !ok || l.body[al.Block()] || al.Comment == "rangeindex" || al.Comment == "" {
+				continue
+			}
+			if monotoneCounter(al, l) != 0 {
+				continue
+			}
+			if !regexp.MustCompile(`\b` + regexp.QuoteMeta(al.Comment) + `\b`).MatchString(text) {
+				loose = append(loose, al.Comment)
+			}
+		}
+		// what the baseline tree already carried through this loop without an invariant was havocked when the
+		// ledger obligations were proved, so it is not what makes a proof fail now; only variables that are new
+		// compared with the baseline (baseline/loops.json) count
+		key := fmt.Sprintf("%s#loop%d", u.p.keyOf[fn], l.ord)
+		u.p.loopMu.Lock()
+		u.p.seenLoops[key] = append([]string{}, loose...)
+		base, known := u.p.baseLoops[key]
+		u.p.loopMu.Unlock()
+		_ = known
+		if u.p.baseLoops == nil {
+			loose = nil // no baseline recorded yet: nothing to compare with
+		} else {
+			var fresh []string
+			for _, x := range loose {
+				found := false
+				for _, b := range base {
+					if b == x {
+						found = true
+					}
+				}
+				if !found {
+					fresh = append(fresh, x)
+				}
+			}
+			loose = fresh
+		}
+		if len(loose) > 0 {
+			s.weak = fmt.Sprintf("%s (loop %d carries %s across iterations without an invariant about it)", u.fnShort(fn), l.ord, strings.Join(loose, ", "))
+		}
+	}
 	for _, c := range l.cells {
 		et := cellElemType(c)
 		if _, isAlloc := c.(*ssa.Alloc); isAlloc {
@@ -645,6 +701,11 @@ func (u *Unit) havocLoop(s *State, fn *ssa.Function, l *Loop) {
 // monotoneCounter: +1 if every store to the cell inside the loop adds a positive constant to its own value, -1 if every
 // store subtracts one (or adds a negative one), 0 otherwise or if the cell's address is used for anything but loads and stores.
 func monotoneCounter(al *ssa.Alloc, l *Loop) int {
+	if pt, ok := al.Type().Underlying().(*types.Pointer); !ok {
+		return 0
+	} else if bt, ok := pt.Elem().Underlying().(*types.Basic); !ok || bt.Info()&types.IsInteger == 0 {
+		return 0
+	}
 	if refs := al.Referrers(); refs != nil {
 		for _, r := range *refs {
 			switch x := r.(type) {
